@@ -632,42 +632,118 @@ func c05Addr(c *Ctx) {
 			continue
 		}
 		cl := f.AnonFuncs[0]
-		arms := map[string]map[string]string{}
+		var addr ssa.Value
+		if len(cl.FreeVars) > 0 {
+			addr = cl.FreeVars[0]
+			for _, fv := range cl.FreeVars {
+				if n := NamedOf(fv.Type()); n != nil && n.Obj().Name() == "Addr" {
+					addr = fv
+				}
+				if pt, ok := fv.Type().(*types.Pointer); ok {
+					if n := NamedOf(pt.Elem()); n != nil && n.Obj().Name() == "Addr" {
+						addr = fv
+					}
+				}
+			}
+		}
+		nIP, nPort := 0, 0
 		for _, call := range Calls(cl) {
 			cal := call.Common().StaticCallee()
 			if cal == nil || cal.Name() != "Store" {
 				continue
 			}
 			k, _ := ConstString(call.Common().Args[1])
-			arm := "?"
-			for _, dc := range DomConds(call) {
-				if ex, ok := dc.V.(*ssa.Extract); ok && ex.Index == 1 && dc.Pol {
-					if ta, ok := ex.Tuple.(*ssa.TypeAssert); ok {
-						arm = typeShortT(ta.AssertedType)
-					}
-				}
+			v := Unwrap(call.Common().Args[2])
+			key := role.fn + " stores " + k
+			switch k {
+			case role.prefix + "-ip":
+				nIP++
+				c.Check(addrPartOf(v, addr, "IP", 0), "addr-roles", key, p.InstrPos(call), "IP.String() of the (asserted) address given to "+role.fn, "key "+k+" is `"+RenderN(v, 4)+"`, not the textual IP of the address given to "+role.fn)
+			case role.prefix + "-port":
+				nPort++
+				c.Check(addrPartOf(v, addr, "Port", 0), "addr-roles", key, p.InstrPos(call), "Port of the (asserted) address given to "+role.fn, "key "+k+" is `"+RenderN(v, 4)+"`, not the port of the address given to "+role.fn)
+			default:
+				c.Violate("addr-roles", role.fn+" foreign key "+k, p.InstrPos(call), role.fn+" writes key "+k+", which does not belong to its role")
 			}
-			if arms[arm] == nil {
-				arms[arm] = map[string]string{}
-			}
-			arms[arm][k] = Render(Unwrap(call.Common().Args[2]))
 		}
-		for _, arm := range []string{"*net.TCPAddr", "*net.UDPAddr"} {
-			m := arms[arm]
-			key := role.fn + " " + arm
-			ip := m[role.prefix+"-ip"]
-			port := m[role.prefix+"-port"]
-			okIP := ip == "(net.IP).String(*fv:addr.("+arm+")#0.IP)"
-			okPort := port == "*fv:addr.("+arm+")#0.Port"
-			c.Check(okIP, "addr-roles", key+" ip", p.Pos(cl.Pos()), role.prefix+"-ip = IP.String() of the asserted address", "key "+role.prefix+"-ip is `"+ip+"` in the "+arm+" arm")
-			c.Check(okPort, "addr-roles", key+" port", p.Pos(cl.Pos()), role.prefix+"-port = Port of the asserted address", "key "+role.prefix+"-port is `"+port+"` in the "+arm+" arm")
-			for k := range m {
-				if !strings.HasPrefix(k, role.prefix+"-") {
-					c.Violate("addr-roles", key+" foreign key "+k, p.Pos(cl.Pos()), role.fn+" writes key "+k+" of the other role")
-				}
+		c.Check(nIP >= 1 && nPort >= 1, "addr-roles", role.fn+" stores both parts", p.Pos(cl.Pos()), fmt.Sprintf("%d ip / %d port stores", nIP, nPort), role.fn+" no longer stores both the "+role.prefix+"-ip and the "+role.prefix+"-port")
+	}
+}
+
+// addrPartOf: v is IP.String() (part "IP") or Port (part "Port") of an assertion of the address `addr` (a value, a captured
+// variable, or – through a helper such as splitAddr(addr) – the helper's own parameter on every successful return).
+func addrPartOf(v, addr ssa.Value, part string, depth int) bool {
+	if depth > 3 || addr == nil {
+		return false
+	}
+	isAddr := func(x ssa.Value) bool {
+		if x == addr || c15Root(x) == c15Root(addr) {
+			return true
+		}
+		// the captured variable's cell: a load of it is the address
+		if ld, ok := x.(*ssa.UnOp); ok && ld.Op == token.MUL && ld.X == addr {
+			return true
+		}
+		return false
+	}
+	fieldOfAssert := func(x ssa.Value, field string) bool {
+		base, ok := isFieldLoadNamed(x, field)
+		if !ok {
+			return false
+		}
+		if ex, isE := base.(*ssa.Extract); isE {
+			base = ex.Tuple
+		}
+		ta, ok := base.(*ssa.TypeAssert)
+		return ok && isAddr(ta.X)
+	}
+	switch x := v.(type) {
+	case *ssa.Phi:
+		for _, e := range x.Edges {
+			if !addrPartOf(e, addr, part, depth+1) {
+				return false
 			}
+		}
+		return true
+	case *ssa.Extract:
+		hc, ok := x.Tuple.(*ssa.Call)
+		if !ok {
+			return false
+		}
+		hf := hc.Call.StaticCallee()
+		if hf == nil || !InRepo(hf) || hf.Blocks == nil {
+			return false
+		}
+		var hp ssa.Value
+		for i, a := range hc.Call.Args {
+			if isAddr(a) && i < len(hf.Params) {
+				hp = hf.Params[i]
+			}
+		}
+		if hp == nil {
+			return false
+		}
+		n := 0
+		for _, r := range Returns(hf) {
+			rv := RetVals(r)
+			if k, isK := rv[len(rv)-1].(*ssa.Const); isK && k.Value != nil && k.Value.String() == "false" {
+				continue // the refusing return
+			}
+			n++
+			if x.Index >= len(rv) || !addrPartOf(rv[x.Index], hp, part, depth+1) {
+				return false
+			}
+		}
+		return n > 0
+	case *ssa.Call:
+		if part == "IP" && MethodIs(x.Call.StaticCallee(), "net", "IP", "String") && len(x.Call.Args) == 1 {
+			return fieldOfAssert(x.Call.Args[0], "IP")
 		}
 	}
+	if part == "Port" {
+		return fieldOfAssert(v, "Port")
+	}
+	return false
 }
 
 func c05Merge(c *Ctx) {
